@@ -11,6 +11,9 @@ impl DetectProp for C06 {
     }
     fn gen(&self, rng: &mut Rng, corpus: &[(String, Vec<u8>)], idx: usize) -> Case {
         let mut c = structured_case(rng, corpus);
+        if idx % 10 == 9 {
+            return declaration_at_zone_edge(rng);
+        }
         match idx % 6 {
             0 | 1 => {
                 // declaration (fitting or contradicting) x BOM x ASCII / UTF-8 body
